@@ -53,7 +53,7 @@ prop('C13',
      kani=[{'name': 'k_bool_laws'}, {'name': 'k_real_lattice'}, {'name': 'k_eu_lattice'},
            {'name': 'k_real_add_small_int'}, {'name': 'k_real_mul_small_int'}],
      assumptions=[A_VERUS, A_EXTRACT, A_KANI],
-     replay='ff',
+     replay={'kani': 'lattice', '*': 'ff'},
      explanation='FiniteField: new/value/negate/one/zero/add/mul/sub verbatim against integer arithmetic modulo P (generic P with 2(P-1) <= u128::MAX, discharged for each exported prime by compute); '
                  'ring laws are lemmas over the operator specifications.  Boolean semiring and the real / expected-utility lattice operations: loop-free Kani harnesses over the whole bit domain.',
      not_covered=[
